@@ -301,6 +301,7 @@ impl<'tcx> Cx<'tcx> {
                 let alloc_id = prov.alloc_id();
                 // &[u8; N], &T where T is scalar-ish, &&str ...
                 let mut done = false;
+                let mut pending: Option<String> = None;
                 if let ty::Ref(_, inner, _) = ty.kind() {
                     match inner.kind() {
                         ty::Array(et, n) if matches!(et.kind(), ty::Uint(ty::UintTy::U8)) => {
@@ -365,10 +366,32 @@ impl<'tcx> Cx<'tcx> {
                             }
                         }
                         ty::Ref(_, i2, _) if i2.is_str() => {
-                            // &&str : read (ptr,len) pair — pointer is relocation; skip
+                            // &&str: the allocation holds a (ptr, len) pair; ptr is a relocation
+                            if let GlobalAlloc::Memory(a) = tcx.global_alloc(alloc_id) {
+                                let a = a.inner();
+                                let o = off.bytes() as usize;
+                                if o + 16 <= a.len() {
+                                    let raw = a.inspect_with_uninit_and_ptr_outside_interpreter(o..o + 16);
+                                    let mut addend: u64 = 0;
+                                    let mut len: u64 = 0;
+                                    for i in 0..8 {
+                                        addend |= (raw[i] as u64) << (8 * i);
+                                        len |= (raw[8 + i] as u64) << (8 * i);
+                                    }
+                                    if let Some(prov) = a.provenance().get_ptr(rustc_abi::Size::from_bytes(o as u64)) {
+                                        if let Some(b) = self.bytes_of_alloc(prov.alloc_id(), addend as usize, len as usize) {
+                                            pending = Some(Self::bytes_json(&b));
+                                        }
+                                    }
+                                }
+                            }
                         }
                         _ => {}
                     }
+                }
+                if let Some(pj) = pending {
+                    let _ = write!(o, ",\"v\":{}", pj);
+                    done = true;
                 }
                 if !done {
                     if let GlobalAlloc::Static(did) = tcx.global_alloc(alloc_id) {
@@ -598,7 +621,7 @@ impl<'tcx> Cx<'tcx> {
         }
     }
 
-    fn body(&mut self, did: DefId, body: &mir::Body<'tcx>, promoted: Option<u32>) -> String {
+    fn body(&mut self, did: DefId, body: &mir::Body<'tcx>, promoted: Option<u32>, stage: &str) -> String {
         let tcx = self.tcx;
         let mut o = String::new();
         let id = match promoted {
@@ -615,7 +638,7 @@ impl<'tcx> Cx<'tcx> {
                 _ => "other",
             }
         };
-        let _ = write!(o, "{{\"id\":{},\"kind\":\"{}\"", esc(&id), kind);
+        let _ = write!(o, "{{\"id\":{},\"kind\":\"{}\",\"stage\":\"{}\"", esc(&id), kind, stage);
         if promoted.is_some() {
             o.push_str(",\"promoted\":true");
         }
@@ -792,17 +815,43 @@ impl<'tcx> Cx<'tcx> {
 
 struct Cb {
     out_dir: String,
+    // coroutine bodies dumped before the state-machine transform (from mir_built)
+    built: Vec<(String, String)>,
+    built_adts: BTreeMap<String, String>,
 }
 
 impl rustc_driver::Callbacks for Cb {
+    fn after_expansion<'tcx>(
+        &mut self,
+        _c: &rustc_interface::interface::Compiler,
+        tcx: TyCtxt<'tcx>,
+    ) -> Compilation {
+        let krate = tcx.crate_name(LOCAL_CRATE).as_str().to_string();
+        let mut cx = Cx { tcx, krate, adts: BTreeMap::new() };
+        let keys: Vec<_> = tcx.mir_keys(()).iter().copied().collect();
+        for ldid in keys {
+            let did = ldid.to_def_id();
+            if !matches!(tcx.def_kind(did), DefKind::Closure) || !tcx.is_coroutine(did) {
+                continue;
+            }
+            let steal = tcx.mir_built(ldid);
+            let body = steal.borrow();
+            let js = cx.body(did, &body, None, "built");
+            self.built.push((cx.path(did), js));
+        }
+        self.built_adts = cx.adts;
+        Compilation::Continue
+    }
+
     fn after_analysis<'tcx>(
         &mut self,
         _c: &rustc_interface::interface::Compiler,
         tcx: TyCtxt<'tcx>,
     ) -> Compilation {
         let krate = tcx.crate_name(LOCAL_CRATE).as_str().to_string();
-        let mut cx = Cx { tcx, krate: krate.clone(), adts: BTreeMap::new() };
+        let mut cx = Cx { tcx, krate: krate.clone(), adts: std::mem::take(&mut self.built_adts) };
         let mut bodies: Vec<String> = Vec::new();
+        let built: BTreeMap<String, String> = std::mem::take(&mut self.built).into_iter().collect();
         let mut n_calls = 0usize;
         let mut keys: Vec<_> = tcx.mir_keys(()).iter().copied().collect();
         keys.sort_by_key(|k| tcx.def_path_hash(k.to_def_id()));
@@ -822,11 +871,17 @@ impl rustc_driver::Callbacks for Cb {
                     n_calls += 1;
                 }
             }
-            bodies.push(cx.body(did, body, None));
+            let pid = cx.path(did);
+            if let Some(js) = built.get(&pid) {
+                // coroutine: keep the pre-transform body as the primary one
+                bodies.push(js.clone());
+            } else {
+                bodies.push(cx.body(did, body, None, "optimized"));
+            }
             // promoted constants hold e.g. `&[Argument; N]`-free data; dump them too
             let promoted = tcx.promoted_mir(did);
             for (pi, pb) in promoted.iter_enumerated() {
-                bodies.push(cx.body(did, pb, Some(pi.as_u32())));
+                bodies.push(cx.body(did, pb, Some(pi.as_u32()), "promoted"));
             }
         }
         let mut out = String::new();
@@ -886,7 +941,7 @@ fn main() {
                 args.push(f.to_string());
             }
         }
-        let mut cb = Cb { out_dir };
+        let mut cb = Cb { out_dir, built: Vec::new(), built_adts: BTreeMap::new() };
         rustc_driver::run_compiler(&args, &mut cb);
     } else {
         let mut cb = Plain;
